@@ -9,6 +9,8 @@ register(
     theorems=[
         "GtModel.C19.host_never_asked_underscore",
         "GtModel.C19.ghost_log_faithful",
+        "GtModel.C19.spy_erasure",
+        "GtModel.C19.host_calls_are_the_logged_reads",
         "GtModel.C19.no_underscore_getattr",
         "GtModel.C19.names_resolved",
         "GtModel.C19.names_resolved_default",
@@ -78,7 +80,10 @@ register(
             "recording wrapper `spy h`, so it does not depend on the evaluator's own log; HostOK.getattr is assumed for "
             "public names only) and ghost_log_faithful (the evaluator's log equals what the host was asked); "
             "no_underscore_getattr / names_resolved / reads_classified speak about the evaluator's own log, written at two "
-            "call sites.  NOT proved: that eval (spy h) and eval h return the same results (parametricity in the host); "
+            "call sites; spy_erasure shows the wrapper is invisible (same result, host state and log), so these are "
+            "statements about the run on h itself (host_calls_are_the_logged_reads).  names_resolved(_default) remain "
+            "statements about the log written at the single lookup site in get_value (name resolution involves no host call "
+            "that could be recorded independently); their tie to the code is the stream's wrapped get_value.  NOT proved: "
             "anything about what happens INSIDE host operations (call, getitem, format traversal) except on the concrete "
             "host of the stream (concrete_host_no_underscore).  The whole-system statement of C19 therefore rests on the "
             "stream: instrumented getattr list compared with the model's log on every case, tripwired sentinels, real tree "
